@@ -620,7 +620,8 @@ class Ledger(metaclass=LedgerRegistry):
             merkle_root = self.get_root_of_merkle_tree(merkle['merkle'], merkle['pos'], tx.hash)
             header = await self.headers.get(remote_height)
             tx.position = merkle['pos']
-            tx.is_verified = merkle_root == header['merkle_root']
+            # a position outside the tree that the branch describes cannot be genuine
+            tx.is_verified = merkle_root == header['merkle_root'] and 0 <= merkle['pos'] < 2 ** len(merkle['merkle'])
         return tx
 
     def maybe_has_channel_key(self, tx):
